@@ -226,7 +226,7 @@ PROPS["C18"] = dict(
     level_note="Selection (unit hcselect): get_healthy / get_usable / get_with_filter return only a monitored resource whose currently published status passes the filter (so nothing when none qualifies); the built-in "
                "strategies pick a usable resource if there is one, PreferHealthy a healthy one if there is one; round-robin indexes the ascending list of usable indices with counter % len (in bounds). The std iterator-adapter "
                "chains inside these functions (position, enumerate/filter/map/collect, filter/cloned/collect) are replaced by contracted helpers stating what the chain computes (R10-iter, ASSUMED); the code around them is the real text. "
-               "Round-robin EVENNESS is not decided beyond that formula (it follows from the shared counter's atomic increment, assumed). That the counters are the run lengths of the history of seen results (Unknown skipped) is machine-checked: lemma_runs_step over the clause upd_post proved on the extracted status-update block (history folded by Seq::push outside the body; the zero counters of HealthCheckedContext::new are read, not under contract).",
+               "Round-robin EVENNESS is not decided beyond that formula (it follows from the shared counter's atomic increment, assumed). That the counters are the run lengths of the history of seen results (Unknown skipped) is machine-checked: lemma_runs_step over the clause upd_post proved on the extracted status-update block (history folded by Seq::push outside the body; HealthCheckedContext::new is under contract: Unknown status, empty runs).",
     technique="contract-based deductive verification (Verus): whole-state contracts + anchored fragment of the checker task",
     design_ref="§6 C18",
     assumptions=["one checker task per resource updates the counters (critical sections atomic, R8)", "counters below u64::MAX"],
